@@ -7,6 +7,7 @@ V = Path(__file__).resolve().parent.parent
 
 # finding id -> (property, commit, what failed)
 FIXED = {
+    ("C07", "column0-comment-in-helper-hides-locals"): ("bc7d032", "a comment line at column 0 inside a helper body made the helper's local names (those that shadow a global) write the global: a re-layout with comments changed the firmware (introduced with ad7ffdb, reported by a seeding sub-agent, reproduced by the def-local skeleton)"),
     ("C01", "helper-global-shadowed-by-main-loop-local"): ("0aa309c", "a name a helper declared `global` and the main loop bound first was declared again as a local of loop(): the helper worked on a different variable and its updates were lost (introduced with ad7ffdb, found by the C09 thorough tier)"),
     ("C01", "helper-local-writes-global"): ("ad7ffdb", "a helper's assignment to a name that is also a file-scope variable wrote the global although the helper did not declare it `global`"),
     ("C01", "loop-born-variable-reset"): ("45dd9dc", "a name first assigned inside a branch at the top level of the main loop was a default-initialised local of loop(): it lost its value at every pass"),
